@@ -2,6 +2,23 @@
 //! features can be chosen per build.  `c02.rs` is the same file the core crate uses.
 #![allow(dead_code, unused_imports, clippy::all)]
 
+/// Same helper as in the core harness crate (nested loops of at most 8 iterations).
+#[macro_export]
+macro_rules! blocks {
+    ($n:expr, $i:ident, $body:block) => {{
+        let mut __b = 0usize;
+        while __b * 8 < $n {
+            let mut __j = 0usize;
+            while __j < 8 && __b * 8 + __j < $n {
+                let $i = __b * 8 + __j;
+                $body
+                __j += 1;
+            }
+            __b += 1;
+        }
+    }};
+}
+
 #[cfg(all(kani, any(feature = "c02", feature = "c20")))]
 #[path = "../../core/src/c02.rs"]
 pub mod c02;
